@@ -214,11 +214,17 @@ int a_str_cats(a_str *ctx, void const *str)
 
 int a_str_cat_(a_str *ctx, a_str const *obj)
 {
-    return a_str_catn_(ctx, obj->ptr_, obj->num_);
+    /* reserve first: obj may be ctx itself, whose storage the reservation can move */
+    int rc = a_str_setm(ctx, ctx->num_ + obj->num_);
+    if (rc == 0) { rc = a_str_catn_(ctx, obj->ptr_, obj->num_); }
+    return rc;
 }
 int a_str_cat(a_str *ctx, a_str const *obj)
 {
-    return a_str_catn(ctx, obj->ptr_, obj->num_);
+    /* reserve first: obj may be ctx itself, whose storage the reservation can move */
+    int rc = a_str_setm(ctx, ctx->num_ + obj->num_ + 1);
+    if (rc == 0) { rc = a_str_catn(ctx, obj->ptr_, obj->num_); }
+    return rc;
 }
 
 #if !defined va_copy && \
